@@ -29,6 +29,8 @@ def gen_base(rng, tier):
         inner = HX.gen_shared_family(rng, third=0.5)
         if rng.random() < 0.5:
             prior = []
+    # part of the block may itself be a squash_changes block opened on the batch trie (committed, or left by an exception)
+    inner = HX.nest_some(rng, inner, 0.3)
     after, _ = HX.gen_writes(rng, 3)
     return {"prune": prune, "prior": prior, "inner": inner, "after": after}
 
@@ -157,7 +159,15 @@ def corpus():
           "exit": ("abort", 2)}
     d2 = {"prune": True, "prior": [("set", b"\x01" * 4, b"x" * 40, "meth")], "inner": [("set", b"\x02" * 4, b"y" * 40, "meth")],
           "after": [("set", b"\x03" * 4, b"z" * 40, "meth"), ("del", b"\x02" * 4, "meth"), ("get", b"\x01" * 4, "meth")], "exit": ("commit", None)}
-    return [d3, d2, dict(d3, exit=("commit", None)), dict(d2, prune=False, exit=("commit_fail", 1))]
+    # D4: a squash_changes block opened on the batch trie; committing it pushes deletes into the enclosing ScratchDB
+    n1 = [("set", b"\x02", b"c" * 40, "meth"),
+          ("batch", [("set", b"\x03", b"d" * 40, "meth"), ("del", b"\x01\x01", "meth")], None),
+          ("get", b"\x03", "meth"), ("get", b"\x01\x01", "meth")]
+    n2 = [("set", b"\x02", b"c" * 40, "meth"),
+          ("batch", [("set", b"\x03", b"d" * 40, "meth"), ("del", b"\x01\x01", "meth")], 2),
+          ("get", b"\x03", "meth"), ("get", b"\x01\x01", "meth"), ("del", b"\x01\x02", "item")]
+    d4 = [dict(d3, inner=n, prune=p, exit=e) for n in (n1, n2) for p in (False, True) for e in (("commit", None), ("abort", 3))]
+    return [d3, d2, dict(d3, exit=("commit", None)), dict(d2, prune=False, exit=("commit_fail", 1))] + d4
 
 
 def check(tier, seed):
